@@ -262,6 +262,25 @@ def run_special():
                 p.append(("call", "m0", []))
             p += [("label", "fwd"), ("data", "db", [N(0xF0)]), ("label", "loc"), ("data", "db", [N(0xC1)])]
             progs.append((p, f"one-param,arg1={k0}", True))
+    # three and four parameters: every permutation of four argument kinds
+    for perm in itertools.permutations(["lit", "const", "back", "fwd"], 3):
+        body3 = [("data", "db", [S("p3")]), ("data", "dw", [S("p1")]), ("data", "dl", [S("p2")]), ("label", "loc"), ("data", "dw", [S("loc")])]
+        args = [arg_expr(k, j % 2, j) for j, k in enumerate(perm)]
+        p = base + [("macro", "m3", ["p1", "p2", "p3"], body3), ("org", N(ORG)), ("label", "back"), ("data", "db", [N(0xB0)]),
+                    ("call", "m3", args), ("call", "m3", list(reversed(args))), ("label", "fwd"), ("data", "db", [N(0xF0)])]
+        progs.append((p, "three-params," + "/".join(perm), True))
+    # a macro defined again later: applications before use the first body, applications after use the second
+    p = base + [("macro", "mr", ["x"], [("data", "db", [S("x")])]), ("org", N(ORG)), ("call", "mr", [N(1)]),
+                ("macro", "mr", ["x"], [("data", "dw", [S("x")])]), ("call", "mr", [N(2)])]
+    progs.append((p, "macro-redefined", False))
+    # a macro whose name is also a label / constant name; a parameter named like the macro itself
+    p = base + [("macro", "same", ["same"], [("data", "db", [S("same")])]), ("org", N(ORG)), ("label", "samelbl"), ("call", "same", [N(7)]),
+                ("call", "same", [S("samelbl")])]
+    progs.append((p, "parameter-named-like-the-macro", True))
+    # two-parameter recursion
+    p = base + [("macro", "rec2", ["n", "v"], [("if", S("n"), [("data", "db", [S("v")]), ("call", "rec2", [("b", "-", S("n"), N(1)), ("b", "+", S("v"), N(2))])], None)]),
+                ("org", N(ORG)), ("call", "rec2", [N(4), N(0x10)]), ("call", "rec2", [N(0), N(0x20)])]
+    progs.append((p, "recursion-two-params", False))
     # conditionally terminated recursion
     for depth in range(0, 7):
         p = base + [("org", N(ORG)), ("call", "mrec", [N(depth)]), ("data", "db", [N(0xEE)]), ("call", "mrec", [("b", "+", S("kc"), N(depth - 0x31))])]
